@@ -10,6 +10,7 @@ import StamModel.Driver.Ql
 import StamModel.Driver.Wj
 import StamModel.Driver.Cc
 import StamModel.Driver.Tid
+import StamModel.Driver.Hs
 /-
   Line-protocol driver: one request per line on stdin, one answer per line on stdout.
   Built as the `stamdriver` executable (core Lean only).
@@ -31,6 +32,8 @@ def step (line : String) : String :=
   | "wj" :: args => wj args
   | "cc" :: args => cc args
   | "tid" :: args => tid args
+  | "hs" :: args => hs args
+  | "lim" :: args => lim args
   | ["reset"] => "ok"
   | _ => "bad-op"
 
